@@ -53,6 +53,8 @@ def needs_sep(a, b):
 
 
 def run(ctx, log):
+    # comments of every content (several multi-byte characters, trailing backslashes, quotes, code) change nothing
+    progcheck.run_comments(ctx, log, mode='tokens')
     rng = ctx.rng
     names = token_names()
     fixed = sorted(names)
@@ -141,7 +143,7 @@ def run(ctx, log):
             ctx.violate("a string literal made the front end crash", source=s, observed=o[:200], expected="a tree or a syntax error")
     front.front_corr(ctx, raw, ("tok", "parse"), log, label="raw-strings")
     # malformed stream: unterminated strings, illegal characters must be flagged, not dropped
-    bad = ['"abc', '"a\\"', 'a "b', "1 № 2", "a & b", "a | b", "x # y", " a"]
+    bad = ['"abc', '"a\\"', 'a "b', "1 № 2", "a & b", "a | b", "x # y", " a", "a &| b", "a |& b", "a &&& b", "a ||| b", "a &&| b", "a |&& b", "a & & b", "a &= b", "a |= b"]
     bobs = vlib.nlh("parse", [vlib.hexs(s) for s in bad], tag="c08b")
     for s, o in zip(bad, bobs):
         ctx.seen(s)
@@ -165,6 +167,33 @@ def run(ctx, log):
         if o != e:
             ctx.violate("an integer literal does not denote the number written (or one beyond the range was accepted)", source=l, observed=o[:200], expected=e)
     front.front_corr(ctx, ilits[: 400 if ctx.quick else len(ilits)], ("tok", "parse"), log, label="int-literals")
+    # every word that is not in the (regenerated) keyword table is a name: all words of up to three letters and a
+    # dictionary of words a language might reserve, each also tried as a variable
+    import string as _string
+    kwset = set(kws) | {w for w in names if w.isalpha()}
+    words3 = ["".join(p) for n in (1, 2, 3) for p in itertools.product(_string.ascii_lowercase, repeat=n)]
+    maybe = ["waar", "onwaar", "true", "false", "nul", "null", "nil", "niets", "niks", "geen", "en", "of", "niet", "not", "and", "or", "xor", "if", "else", "elif", "while", "for", "voor", "in", "tot", "doe", "do", "einde", "eind", "end",
+             "return", "retour", "geef", "break", "continue", "stoppen", "ga", "let", "var", "const", "def", "fn", "func", "function", "proc", "klasse", "class", "nieuw", "new", "dit", "this", "self", "zelf", "import", "gebruik",
+             "lijst", "tekst", "getal", "anders_als", "andersals", "zolangals", "herhaal", "totdat", "kies", "geval", "standaard", "probeer", "vang", "gooi", "Ja", "Nee", "JA", "Als", "ALS", "Stel", "Functie"]
+    wl = [w for w in words3 + maybe if w not in kwset]
+    wobs = vlib.nlh("tokens", [vlib.hexs(" ".join(wl[i:i + 500])) for i in range(0, len(wl), 500)], tag="c08w")
+    got_words = []
+    for o in wobs:
+        got_words += [t for t in strip_offsets(o).split(";") if t]
+    want_words = [canon_token(w, names) for w in wl]
+    ctx.count("dictionary-words", len(wl))
+    for w, g, e in zip(wl, got_words, want_words):
+        ctx.seen(("word", w))
+        if g != e:
+            ctx.violate("a word that is not a keyword did not lex as a name", source=w, observed=g[:100], expected=e[:100])
+    if len(got_words) != len(want_words):
+        ctx.violate("the lexer did not return one token per word", source="(dictionary of %d words)" % len(wl), observed=str(len(got_words)), expected=str(len(want_words)))
+    wprog = ["stel %s = 41; %s + 1" % (w, w) for w in maybe if w not in kwset]
+    wo = vlib.nlh("eval", ["1000 " + vlib.hexs(x) for x in wprog], tag="c08wp")
+    for x, o in zip(wprog, wo):
+        ctx.seen(("word-as-variable", x))
+        if not o.startswith("OK i42"):
+            ctx.violate("a word that is not a keyword cannot be used as a variable", source=x, observed=o[:120], expected="OK i42")
     ctx.sample(dict(source=texts[200], tokens=obs[200][:200]))
     ctx.sample(dict(literal=lits[700], tree=pobs[700]))
 
